@@ -610,9 +610,12 @@ impl super::MainState {
                 };
 
             if do_it {
-                // do it if all is ok.
+                // do it if all is ok. count the user only if it is not an operator yet
+                let count_it = !user.modes.is_local_oper();
                 user.modes.oper = true;
-                state.operators_count += 1;
+                if count_it {
+                    state.operators_count += 1;
+                }
                 info!("New IRC operator {}", conn_state.user_state.source);
                 self.feed_msg(&mut conn_state.stream, RplYoureOper381 { client })
                     .await?;
